@@ -81,12 +81,12 @@ fn main() {
                     // a panic raised inside the library that no pass of the check expected or caught: no property
                     // allows a crash on the calls the checks make, so this is a verdict, not a harness problem
                     Some(loc) => {
-                        let report = mc::report::Report::new(&args[2], tier, seed, "model_checking");
+                        let report = mc::report::Report::resume_aborted(&args[2], tier, seed, "model_checking", &format!("aborted by a library panic at {loc} that no pass caught"));
                         report.violation(mc::report::Violation {
                             signature: format!("{}|uncaught-library-panic|{}", args[2], loc),
                             scenario: "uncaught-library-panic".into(),
                             replay: serde_json::json!({"rerun": format!("./check.sh {} {}", args[2], tier.name()), "panic_location": loc}),
-                            detail: serde_json::json!({"message": m, "location": loc, "note": "the library panicked in a pass that does not expect panics; the run stopped there, so the coverage counters of this run are empty"}),
+                            detail: serde_json::json!({"message": m, "location": loc, "note": "the library panicked in a pass that does not expect panics; the run stopped there; the coverage counters are those reached before the abort"}),
                         });
                         report.finish()
                     }
